@@ -554,6 +554,24 @@ func genC07(t *rapid.T) C07Case {
 		n := rapid.Int64Range(5, 30).Draw(t, "years")
 		c.List = []RawArch{{Step: 1, Points: n * y}, {Step: 60, Points: 2 * n * y / 60}}
 		c.Note = "years-scale"
+	case 17: // a NON-last archive whose retention is k x 2^32 + r: the low 32 bits r sit strictly between the
+		// neighbours' retentions, so every pairwise rule computed on 32-bit products is satisfied (round 10, C07t)
+		s0 := rapid.SampledFrom([]int64{1, 2, 4}).Draw(t, "s0")
+		p0 := rapid.Int64Range(8, 16).Draw(t, "p0")
+		s1 := s0 * rapid.SampledFrom([]int64{8, 16, 32}).Draw(t, "r1")
+		if s1 < 16 {
+			s1 = 16
+		}
+		kk := (s0*p0)/s1 + rapid.Int64Range(1, 3).Draw(t, "k")       // r = s1*kk > s0*p0
+		wraps := rapid.SampledFrom([]int64{1, 1, 1, 2}).Draw(t, "wraps") // file stays below 4 GiB for s1 >= 16 and one wrap
+		p1 := wraps*(int64(1)<<32)/s1 + kk
+		s2 := s1 * rapid.SampledFrom([]int64{2, 4}).Draw(t, "r2")
+		p2 := (s1*kk)/s2 + rapid.Int64Range(1, 3).Draw(t, "p2")
+		c.List = []RawArch{{Step: s0, Points: p0}, {Step: s1, Points: p1}, {Step: s2, Points: p2}}
+		if rapid.Bool().Draw(t, "twoOnly") {
+			c.List = c.List[1:]
+		}
+		c.Note = "wrapped-middle-retention"
 	default:
 		c.Note = "valid-plain"
 	}
@@ -564,7 +582,7 @@ func genC07(t *rapid.T) C07Case {
 func TestC07(t *testing.T) {
 	RunProperty(t, Property[C07Case]{
 		ID:          "C07",
-		Rule:        "rapid-generated archive lists: a valid layout built by construction, then at most one mutation at a rule boundary (equal steps, non-dividing step, retention equal/one step shorter/longer, one point too few, zero/negative values, swapped order, empty list, retention products within +-2 of 2^31 and 2^32, offsets within +-3 slots of 2^32, year-scale layouts), method 0..9 and xFilesFactor bit patterns incl. NaN/+-Inf/-0/nextafter(0|1); each judged by the rules in exact int64 arithmetic and compared with NewHeader, Create (+Sync+reopen, header bytes vs. specification encoding), ParseArchiveInfoList on a harness-printed string, the -retentions/-agg-method/-x-files-factor flag values, Header.TakeFrom on specification-encoded bytes and Open on a file with those bytes. Non-trivial: the case carries a boundary mutation (not 'valid-plain'). Grey-zone lists (Z3) are discarded and counted. Distinct = hash of the case.",
+		Rule:        "rapid-generated archive lists: a valid layout built by construction, then at most one mutation at a rule boundary (equal steps, non-dividing step, retention equal/one step shorter/longer, one point too few, zero/negative values, swapped order, empty list, retention products within +-2 of 2^31 and 2^32, offsets within +-3 slots of 2^32, year-scale layouts, a non-last archive whose retention is k x 2^32 plus a remainder lying between its neighbours' retentions), method 0..9 and xFilesFactor bit patterns incl. NaN/+-Inf/-0/nextafter(0|1); each judged by the rules in exact int64 arithmetic and compared with NewHeader, Create (+Sync+reopen, header bytes vs. specification encoding), ParseArchiveInfoList on a harness-printed string, the -retentions/-agg-method/-x-files-factor flag values, Header.TakeFrom on specification-encoded bytes and Open on a file with those bytes. Non-trivial: the case carries a boundary mutation (not 'valid-plain'). Grey-zone lists (Z3) are discarded and counted. Distinct = hash of the case.",
 		Assumptions: []string{"Z3: retentions in [2^31,2^32) and files whose end (not an offset field) exceeds 2^32 get no verdict", "strings are printed in seconds by the harness (unit handling is C19's)"},
 		Gen:         genC07,
 		Run:         runC07,
@@ -577,6 +595,7 @@ func TestC07(t *testing.T) {
 				{List: []RawArch{{1, 60}, {60, 60}}, Method: 7, XFFBits: 0, Note: "mix"},
 				{List: []RawArch{{1, 60}, {60, 1}}, Method: 1, XFFBits: 0, Note: "equal retention"},
 				{List: []RawArch{{1, 59}, {60, 2}}, Method: 1, XFFBits: 0, Note: "one point too few"},
+				{List: []RawArch{{2, 8}, {16, 1<<28 + 2}, {32, 2}}, Method: 1, XFFBits: 0, Note: "middle retention wraps to 32 s"},
 			}
 		},
 	})
